@@ -162,7 +162,8 @@ class CheckC04(core.Check):
                 exp = gen_bytes("pay%d" % j, plen)
                 b, ln, _ = decode_out(er.kv.get("out"))
                 if not er.ok:
-                    r.viol("C04|genuine-rejected|%s" % er.op, "%s: the peer's genuine message was rejected: %s" % (name, er.res))
+                    # C04 states "Ok only for the genuine message"; that the genuine one IS accepted is C02's predicate
+                    r.foreign_dev("C02", "the peer's genuine message was rejected")
                 elif b != exp:
                     r.viol("C04|payload|%s" % er.op, "%s: genuine message accepted with a payload different from the written one" % name)
                 else:
